@@ -23,6 +23,19 @@ CLAIMED = {
         note=('Trusts: the two documentation tables as the specification (parse failure is a harness error, not a pass); the '
               'generator\'s abstract model only for keeping programs pixel-scale compatible (verdicts use the live objects\' '
               'public ptype). Program length bound 12 per caller. Rotate and Flip are genuinely broken (8 known findings).')),
+    'C09': dict(
+        design='7.3',
+        text=('Seeded deterministic simulation of a broadband exposure: 1-2 callers each loop over 2-8 wavelengths (seeded order, FFT '
+              'grids of either parity and both growing and shrinking between iterations, oversampling 1-3, scalar or commensurate per-axis '
+              'pixel scales, monolithic or segmented pupils of either parity) through propagate_fft with ONE scratch buffer reused across '
+              'the loop: pre-filled with NaN/inf/garbage, stale from the previous wavelength afterwards, sized exactly as '
+              'lentil.scratch_shape advertises, larger, or one short; refused calls (oversize shape, tilt-carrying wavefront from a Tilt '
+              'plane / Wavefront(tilt=) / fitted pupil, short scratch) are injected inside the loop, propagations are duplicated and the '
+              'scratch re-dirtied between duplicates. Oracles: scratch result == no-scratch result; both == the real propagate_dft '
+              'evaluated at the wavelength the FFT result reports; result metadata; acceptance/refusal set; refusals leave scratch and '
+              'wavefront bytes unchanged; earlier results stay byte-identical while the scratch is reused (no aliasing). Exploration.'),
+        note=('The DFT reference is lentil\'s own propagate_dft: an error common to both propagators is C01/C02 territory and invisible here. '
+              '1/alpha is generated within 0.3 of an integer so the grid size never depends on rounding. Pupils no larger than the grid only.')),
     'C10': dict(
         design='7.2',
         text=('Seeded deterministic simulation of 2-4 callers sharing caller-owned arrays, planes, spectra and wavefronts: pipeline fragments '
